@@ -26,9 +26,10 @@ LEVEL_TEXT = (
     "same operand values as the virtual-register program (relation: for all live v, P(colour v) = R v); hence every read sees "
     "the most recent definition of the value it names (`reads_agree`), and two simultaneously live values share or alias a "
     "register only if it is the identical register and they hold equal values in every execution (`shared_register_means_copies`). "
-    "The checker does not trust ppci's liveness (it validates a supplied post-fixpoint). Every frame coloured by the real "
-    "allocator for the generated programs is run through this checker; every spill rewrite through `checkSpillStep` "
-    "(its soundness theorem is proved at the level described in notes/C06.md)."
+    "The checker does not trust ppci's liveness (it validates a supplied post-fixpoint). `spillStep_sound`: if "
+    "`Model.RA.checkSpillStep` accepts one call of rewrite_program then the rewritten list (spill code abstracted to load/store "
+    "of the new slot) simulates the original list for every execution. Every frame coloured by the real allocator for the "
+    "generated programs is run through `check`, every spill rewrite through `checkSpillStep`."
 )
 LEVEL_NOTE = (
     "per-output validation: the quantifier over programs/targets is discharged only for the frames generated in this run; "
@@ -1170,18 +1171,19 @@ def make_jobs(ctx):
             for n in range(len(CORPUS)):
                 if n == 1 and arch not in ("x86_64", "riscv", "riscv:rvc"):
                     continue
-                for opt in (0, 2):
+                for opt in ((0, 2) if ctx.thorough else ((0,) if n == 1 and arch == "x86_64" else (2,))):
                     jobs.append({"arch": arch, "kind": "corpus", "n": n, "opt": opt, "seed": 0})
     n_ir = 14 if ctx.thorough else 3
     n_c = 6 if ctx.thorough else 1
     for arch in targets:
         tmo = 8 if arch == "m68k" else 60
         for k in range(n_ir):
-            jobs.append({"arch": arch, "kind": "ir", "seed": ctx.rng.getrandbits(32), "timeout": tmo, "big": k % 3 == 2})
+            jobs.append({"arch": arch, "kind": "ir", "seed": ctx.rng.getrandbits(32), "timeout": tmo,
+                         "big": ctx.thorough and k % 3 == 2})
         if arch in PALETTE:
             for k in range(n_c):
                 seed = ctx.rng.getrandbits(32)
-                for opt in ((0, 2) if ctx.thorough or arch == "x86_64" else (2,)):
+                for opt in ((0, 2) if ctx.thorough else (2,)):
                     jobs.append({"arch": arch, "kind": "c", "seed": seed, "opt": opt, "timeout": tmo})
     return jobs
 
